@@ -555,4 +555,24 @@ def op_init(w, g, method, *args):
         if k == "<name>":
             k = v.name
         return lambda: D.setdefault(k, v)
+    if m == "copy_then_edit_the_copy":
+        # copy() must hand out something whose edits do not reach the graph (or that is fully tracked)
+        k = args[0]
+
+        def t():
+            c = D.copy()
+            if k in c:
+                del c[k]
+            else:
+                c.clear()
+
+        return t
+    if m == "ior":
+        v = w.V(args[0])
+
+        def t():
+            d = D
+            d |= {v.name: v}
+
+        return t
     raise KeyError(m)
